@@ -85,7 +85,7 @@ func genCrash(r *core.Rand, tier string) *stCase {
 			c.Cmds = append(c.Cmds, stCmd{Op: "bg", W: "c"})
 		}
 	}
-	c.MaxImages = 60
+	c.MaxImages = 50
 	if tier == "thorough" {
 		c.MaxImages = 150
 	}
@@ -417,7 +417,7 @@ func init() {
 			if tier == "thorough" {
 				return 400
 			}
-			return 36
+			return 24
 		},
 		GenF:        genCrash,
 		ExecF:       execCrash,
